@@ -77,18 +77,19 @@ def check_sum(case):
     cls = {kind, 'basis:' + basis_name + ('/str' if case['basis'][1] != 'enum' else '/enum'), 'be' if be else 'le'}
     if max(case.get('weights') or [0]) > 256:
         cls.add('weights>256')
+    again = case['uuid_seed'] % 3 == 0  # generators: ask twice, the first result changed by its owner in between
     with UuidStream(case['uuid_seed']):
         if kind.startswith('gen_'):
             n = case['n']
             if kind == 'gen_sum_n_bits':
-                c = ar.generate_sum_n_bits(n, basis=basis, big_endian=be)
+                c = arith.fresh(lambda: ar.generate_sum_n_bits(n, basis=basis, big_endian=be), again)
                 weights = [0] * n
             elif kind == 'gen_weighted_eff':
                 weights = [int(str(w)) for w in case['weights']]  # every weight an object of its own
-                c = ar.generate_sum_weighted_bits_efficient(weights, basis=basis)
+                c = arith.fresh(lambda: ar.generate_sum_weighted_bits_efficient(weights, basis=basis), again)
             else:
                 weights = [int(str(w)) for w in case['weights']]  # every weight an object of its own
-                c = ar.generate_sum_weighted_bits_naive(weights, basis=basis)
+                c = arith.fresh(lambda: ar.generate_sum_weighted_bits_naive(weights, basis=basis), again)
             res = refsem.from_circuit(c)
             if len(res['inputs']) != n:
                 raise Violation('input_count', f'{kind}: {len(res["inputs"])} inputs for n={n}')
@@ -259,7 +260,7 @@ SPEC = {
              'host discipline (old gates structurally and functionally unchanged, interface unchanged), no XOR/NXOR among '
              'fresh gates under AIG, documented gate-count bounds. Non-trivial: n>=3 with a carry across levels.'),
     'assumptions': ['reference tables from vlib/refsem.py; uuid4 replaced by a seeded stream'],
-    'subs': [Sub('sum', cases, arith.with_label_collisions(check_sum), {'quick': 1600, 'thorough': 125000})],
+    'subs': [Sub('sum', cases, arith.with_refused_prelude(arith.with_label_collisions(check_sum)), {'quick': 1600, 'thorough': 125000})],
     'required_classes': {'sum': KINDS + ['basis:AIG/str', 'basis:AIG/enum', 'basis:XAIG/str', 'internal_operands',
                                          'repeated_operands', 'shift_vs_len:gt', 'shift_vs_len:eq', 'be', 'le',
                                          'alias:live_list', 'alias:same_object', 'weights>256']},
